@@ -42,7 +42,7 @@ def parseSItem (w : String) : Option (Option SItem) :=
     | _ => none
 
 /-- The `r:` probe: `try_slice` / `try_slice_mut`. -/
-def sliceProbe (dn : List (Nat × Nat)) (storageLen : Nat) (arg : String) : String :=
+def sliceProbe (ovf : Bool) (dn : List (Nat × Nat)) (storageLen : Nat) (arg : String) : String :=
   let ws := if arg == "-" then [] else arg.splitOn "/"
   match ws.mapM parseSItem with
   | none => "bad-probe"
@@ -50,6 +50,12 @@ def sliceProbe (dn : List (Nat × Nat)) (storageLen : Nat) (arg : String) : Stri
     match its.mapM id with
     | none => "err"
     | some items =>
+      -- overflow-checks builds: `offset += stride * start` traps when the running sum passes
+      -- 2^64 (only possible for empty results, whose offset a release build resets to 0)
+      let trapped := ovf && (match resolveItems true dn items with
+        | some rs => decide ((sliceLoopR dn rs).1 ≥ wordSize)
+        | none => false)
+      if trapped then "panic" else
       match trySlice true dn storageLen items with
       | .error e => e.toString
       | .ok v =>
@@ -57,7 +63,7 @@ def sliceProbe (dn : List (Nat × Nat)) (storageLen : Nat) (arg : String) : Stri
 
 /-- One probe on an accepted tensor `dims` (machine values) with `storageLen` elements. -/
 def probe (ovf nd : Bool) (dims : List (U × U)) (storageLen : Nat) (p : String) : String :=
-  if p.startsWith "r:" then sliceProbe (M.toN dims) storageLen (p.drop 2).toString else
+  if p.startsWith "r:" then sliceProbe ovf (M.toN dims) storageLen (p.drop 2).toString else
   let (kind, arg) :=
     match p.splitOn ":" with
     | [k, a] => (k, a)
